@@ -170,7 +170,28 @@ def driver_function(dim, fseed):
     def f(x):
         s = float(np.dot(w, x))
         return math.sin(s) + c[0] * x[0] * x[-1] + c[1] * abs(x[0] - kink) + 1.5 + c[2] * math.exp(-s * s / 9.0)
+    if fseed % 3 == 1 and dim >= 2:
+        # every third function is exactly linear on a part of the domain (x0 below a dyadic threshold that lies on area
+        # boundaries) and curved elsewhere: error indicators / benefits that are exactly zero in some areas
+        thr = [0.5, 0.25, 0.75][(fseed // 3) % 3]
+
+        def fpl(x, a0=None):
+            lin = 1.0 + float(np.dot(w, x))
+            t = x[0]
+            if t <= thr_abs[0]:
+                return lin
+            return lin + (t - thr_abs[0]) ** 2 * (2.0 + math.sin(float(np.dot(w, x))))
+        thr_abs = [thr]
+        fpl.set_box = lambda a, b: thr_abs.__setitem__(0, a[0] + (b[0] - a[0]) * thr)
+        return fpl
     return f
+
+
+def fit_to_box(g, a, b):
+    """piecewise integrands place their kink relative to the box"""
+    if hasattr(g, "set_box"):
+        g.set_box(list(a), list(b))
+    return g
 
 
 def vector_function(components):
